@@ -42,6 +42,11 @@ def outcome_depfail():
     return st.fixed_dictionaries({"k": st.just("depfail"), "exc": st.sampled_from(EXC_NAMES), "text": st.text("ab", max_size=4)})
 
 
+def outcome_depeager():
+    return st.fixed_dictionaries({"k": st.just("depeager"), "action": st.sampled_from(EAGER_ACTIONS), "program": st.just([]),
+                                  "sleep": st.just(0.0)})
+
+
 def eager_program(with_sets: bool):
     cb = st.tuples(st.just("cb"), st.integers(0, 9), st.sampled_from(["sync", "async"])).map(list)
     steps = [cb]
@@ -83,6 +88,8 @@ def job(draw, idx: int, actors: list, *, allow_eager=True, allow_timeout=True, a
             opts.append(outcome_eager(with_sets=True))
         if shape == "dep":
             opts.append(outcome_depfail())
+            if allow_eager:
+                opts.append(outcome_depeager())
     else:
         opts = [st.fixed_dictionaries({"k": st.just("ret"), "v": json_value}),
                 st.fixed_dictionaries({"k": st.just("raise"), "exc": st.sampled_from(EXC_NAMES), "text": st.text("ab", max_size=3)})]
